@@ -811,9 +811,15 @@ func midFrameScenario() string {
 //   - last=true: the multi is the only outstanding request: the reader first counts it out of
 //     flight and clears the read deadline, and fails the connection when that has returned
 func serverExcMultiScenario(exc string, last bool) string {
+	return serverExcMultiScenarioFor("c03", exc, last)
+}
+
+// … for C02 the same script matters for what the *other* call of the multi receives: its own
+// answer (the server executed it), not the exception of its neighbour.
+func serverExcMultiScenarioFor(model, exc string, last bool) string {
 	s := newConnScn(NewRNG(1, fmt.Sprintf("servexcmulti-%s-%v", exc, last)), 2)
 	if s.broken != "" {
-		return "c03 run 2 broken:" + strings.ReplaceAll(s.broken, " ", "_") + " cancelled=none foreign=none"
+		return model + " run 2 broken:" + strings.ReplaceAll(s.broken, " ", "_") + " cancelled=none foreign=none"
 	}
 	s.v.closeErr = nil
 	queue := func(direct bool) *connCall {
@@ -913,12 +919,16 @@ func serverExcMultiScenario(exc string, last bool) string {
 		chk("late", late, "connErr")
 		if len(other.results) != 1 {
 			bad += fmt.Sprintf("other-call-of-the-multi=%d-results,", len(other.results))
+		} else if want, ok := s.expect[other.idx]; ok && want != "any" && other.results[0] != want {
+			// (log() lets a connection-level error pass once the connection is down; here the
+			// connection went down only after this call had been answered)
+			bad += fmt.Sprintf("other-call-of-the-multi=%s(the_server_answered_%s),", other.results[0], want)
 		}
 		if bad != "" {
 			s.misdelivered = append(s.misdelivered, fmt.Sprintf("0:%x", "script-server-exception-in-multi:"+bad))
 		}
 	}
-	return s.line("c03")
+	return s.line(model)
 }
 
 func (s *connScn) log(act string) {
@@ -1523,6 +1533,7 @@ func init() {
 			out.Line("%s", slowCloseScenario())
 			out.Line("%s", blockedWriteCloseScenario())
 			out.Line("%s", dialCloseScenario("close"))
+			out.Line("%s", dialCloseScenario("close-peer-gone"))
 			for _, exc := range []string{"action", "region"} {
 				out.Line("%s", serverExcMultiScenario(exc, false))
 				out.Line("%s", serverExcMultiScenario(exc, true))
@@ -1559,6 +1570,10 @@ func init() {
 			}
 			for i := 0; i < n; i++ {
 				out.Line("%s", strings.Replace(c05Stress(NewRNG(seed, fmt.Sprintf("c02s-%d", i)), i), "c05 ", "c02s ", 1))
+			}
+			for _, exc := range []string{"action", "region"} {
+				out.Line("%s", serverExcMultiScenarioFor("c02", exc, false))
+				out.Line("%s", serverExcMultiScenarioFor("c02", exc, true))
 			}
 			// what a caller was handed stays its own answer while answers to other callers arrive on
 			// the same connection (compressed responses included; c15alias.go)
